@@ -241,6 +241,4 @@ Definition qty_wf (cfg : pcfg) (q : qspec) (tp : qtape) : bool :=
   match qs_unit q with
   | Some u => forallb shape_ok u && negb (str_blank (toks_text u))
   | None => true
-  end &&
-  (* ADVANCED_UNITS reads `{1 g}` differently; here the unit, if any, is introduced by `%` *)
-  (negb (has cfg X_ADVANCED_UNITS) || match qs_unit q with Some _ => true | None => false end).
+  end.
